@@ -2,7 +2,7 @@
 """Apply each deliberate break (mutants/*.diff, seeded/*/patch.diff) to a scratch worktree of /repo, run the pinned
 tests there (must stay green) and the quick check of the targeted property (must exit 1 with a VIOLATION line).
 
-usage: tools/selftest.py [--tests] [--tier quick] [name-substring ...]
+usage: tools/selftest.py [--tests] [--thorough] [--write [--merge]] [name-substring ...]
 """
 import json
 import os
@@ -100,6 +100,11 @@ def main():
                 lines = src.read_text().splitlines()[:3] if src.exists() else []
                 note = next((l[2:] for l in lines if l.startswith("# ") and not l.startswith("# propert")), "")
             out.append({"change": name, "property": prop, "result": what, "what": note})
+        if "--merge" in sys.argv and (VERIF / "selftest_results.json").exists():
+            # a partial run: its rows replace those of the same changes in the recorded results
+            old = json.loads((VERIF / "selftest_results.json").read_text())["rows"]
+            names = {r["change"] for r in out}
+            out = sorted([r for r in old if r["change"] not in names] + out, key=lambda r: (r["change"].startswith("seeded/"), r["change"], r["property"]))
         (VERIF / "selftest_results.json").write_text(json.dumps({"repo_head": sh(f"git -C {REPO} rev-parse --short HEAD").stdout.strip(), "tier": tier, "rows": out}, indent=1) + "\n")
     missed = [r for r in rows if "CAUGHT" not in r[2] and "neutralised" not in r[2]]
     print(f"\n{len(rows) - len(missed)}/{len(rows)} caught")
